@@ -532,9 +532,6 @@ def alphabet(world, which):
             _op("P", "parse_args", ["--print_config"], "print_config"),
             _op("P", "parse_args", ["--od=null", "--c.n=null"], "ok:dataclass-param-null+dataclass-option-null"),
             dc("P", "parse_env", {"APP_C__D": '{"a": 2}', "APP_OD": '{"b": 4}'}, "ok:partial"),
-            dc("P", "dump", cfg_part, "ok:partial"),
-            dc("P", "instantiate", cfg_ok, "ok"),
-            _op("Q", "get_defaults"),
             dc("Q", "instantiate", {"c": {"d": {"a": 5}, "e": {"a": 3, "b": 4}, "n": None}, "od": {"k": 1, "inner": {"a": 2, "b": 3}}}, "ok:partial"),
         ]
     else:
